@@ -54,7 +54,21 @@ MAXWARN = {
     'feature:2 then feature:1': [['missing-feature:2'], ['missing-feature:1']],
 }
 OUTPUTS = {'x': ['-x', 'cg.pdb'], 'x+o': ['-x', 'cg.pdb', '-o', 'topol.top']}
-EXTRA = {'none': [], 'graph': ['-write-graph', 'graph.pdb']}
+EXTRA = {'none': [], 'graph': ['-write-graph', 'graph.pdb'], 'ffwarn': ['-ff-dir', 'extra_ff']}
+MAXWARN.update({'3': [['3']], '4': [['4']], 'model:3': [['model:3']], 'model': [['model']]})
+# a force-field extension whose link carries a [ warning ]: it applies once per pair of consecutive residues, so a
+# peptide of N residues gives N - 1 warnings (counted here from the input, not from what the program logged)
+LINK_MARK = 'has no parameters (verif link warning)'
+LINK_FF = '''[ link ]
+[ atoms ]
+BB {"resname": "ALA"}
++BB {"resname": "ALA"}
+[ edges ]
+BB +BB
+[ warning ]
+Peptide bond between {BB[resname]}{BB[resid]} and {+BB[resname]}{+BB[resid]} %s.
+''' % LINK_MARK
+N_RES = 5
 
 OLD = {'cg.pdb': 'OLD cg.pdb\n', 'topol.top': 'OLD topol.top\n', 'molecule_0.itp': 'OLD molecule_0.itp\n',
        'unrelated.txt': 'keep me\n'}
@@ -86,6 +100,10 @@ def prepare(base, run, tag):
     for name, text in OLD.items():
         with open(os.path.join(work, name), 'w') as handle:
             handle.write(text)
+    if run[4] == 'ffwarn':
+        os.makedirs(os.path.join(work, 'extra_ff', 'martini3001'))
+        with open(os.path.join(work, 'extra_ff', 'martini3001', 'warn.ff'), 'w') as handle:
+            handle.write(LINK_FF)
     return work
 
 
@@ -141,7 +159,11 @@ def one_run(base, run, acc, tag='r', prop='C07'):
              sample=dict(case, exit=res['exit'], warnings={str(k): v for k, v in counts.items()}, leftover_expected=leftover,
                          files=sorted(after)) if acc.states % 97 == 0 else None)
     sig = None
-    if leftover > 0:
+    n_link = sum(1 for level, typ, message in collector.records if level >= logging.WARNING and LINK_MARK in message)
+    if run[4] == 'ffwarn' and n_link != N_RES - 1:
+        sig, desc = 'cli:link-warning-not-per-match', ('the warning of a force-field link that applies %d times was logged %d time(s): '
+                                                      'every application counts against -maxwarn' % (N_RES - 1, n_link))
+    elif leftover > 0:
         changed = sorted(k for k in set(before) | set(after) if before.get(k) != after.get(k) and not is_dump(k))
         if res['exit'] == 0:
             sig, desc = 'cli:unwaived-warnings-exit-0', 'exit 0 although %d warning(s) are left after -maxwarn (%r)' % (leftover, counts)
@@ -176,7 +198,13 @@ def all_runs(tier, focus):
         if tier == 'quick':
             switches = ['none', 'scfix', 'ed', 'ed+collagen']
             maxwarns = ['absent', '1', '5', 'alt', 'alt:1', 'alt:2', 'general', 'other-type', '5 then 1', 'alt:2 alt:1']
-    return list(itertools.product(inputs, switches, maxwarns, outs, extras))
+    if 'ffwarn' in extras:
+        extras.remove('ffwarn')
+    runs = list(itertools.product(inputs, switches, maxwarns, outs, extras))
+    if focus != 'maxwarn':
+        ffw = ['absent', '1', '3', '4', '5', 'model', 'model:3', 'other-type', 'general']
+        runs += [('clean', 'none', mw, 'x+o', 'ffwarn') for mw in ffw] + [('alt1', 'scfix', mw, 'x', 'ffwarn') for mw in ffw[:6]]
+    return runs
 
 
 def work(task):
@@ -200,13 +228,17 @@ def bind_work(run):
     base = tempfile.mkdtemp(prefix='verif_clib_', dir='/dev/shm' if os.path.isdir('/dev/shm') else None)
     try:
         dummy = Acc()
-        res1, after1 = one_run(base, run, dummy, tag='a')
+        # the first run is the first thing this newly forked process does: it is judged like any other run
+        # (a run that behaves differently as the first of its process than after others is caught here)
+        res1, after1 = one_run(base, run, acc, tag='a')
         res2, after2 = one_run(base, run, dummy, tag='b')
         work_dir = prepare(base, run, 'c')
         sub = cli.run_subprocess(argv_of(run), work_dir)
         after3 = listing(work_dir)
         acc.case(nontrivial=True, outcome=('bind', sub['exit'], sorted(after3)),
                  sample={'layer': 'cli-binding', 'argv': argv_of(run), 'exit': sub['exit'], 'files': sorted(after3)})
+        if acc.violations:
+            return acc
         if (res1['exit'], after1) != (res2['exit'], after2):
             raise common.HarnessError('in-process driver is not repeatable for %r' % (argv_of(run),))
         if (res1['exit'], after1) != (sub['exit'], after3):
@@ -245,9 +277,10 @@ def run_layer(ctx, focus='gate', name='cli-gate'):
     ctx.layer(name, acc)
     nsub = (8 if ctx.quick else 32) if focus == 'gate' else (4 if ctx.quick else 12)
     subset = covering_subset(runs, nsub)
-    # prefer warning-producing runs for the binding
+    # plus every run that asks for an immediately written dump (-write-graph) and leaves warnings unwaived
+    subset += [r for r in runs if r[4] == 'graph' and r[2] == 'absent' and r[3] == 'x+o' and r not in subset]
     acc = Acc()
-    for part in common.pmap(bind_work, subset):
+    for part in common.pmap(bind_work, subset, fresh=True):
         acc += part
     ctx.layer(name + '-subprocess-binding', acc)
 
